@@ -43,7 +43,7 @@ for _pid, _tech, _txt in [
      "TLC enumerates the reference outcomes of programs over 2 thread-locals and 2 lazy statics (one with a scheduling point inside its initialiser); every loom outcome incl. init/drop counters must be a reference outcome, every iteration validates from the spec's Init (re-initialisation), no causality panic on data published through a lazy static."),
     ("C18", "outcome-set sandwich against LoomSem in which an await loop is one blocking read; Never variants must end at the branch limit",
      "Lower(P) subset-of loom(P) subset-of Upper(P) on await programs, no branch-limit panic when the condition is established in every execution, branch-limit panic (not a hang, not a return) when it never is."),
-    ("C19", "ExploreTrace.tla (frozen non-exploring branches) + trace validation + subset checks for every region placement; CheckLoop.tla (TLC) gives the expected iteration counts for max_permutations/max_duration grids",
+    ("C19", "ExploreTrace.tla (frozen non-exploring branches) + trace validation + subset checks for every region placement; CheckLoop.tla (TLC) gives the expected iteration counts for max_permutations/max_duration grids, and (thorough tier) Apalache discharges an inductive invariant of the loop bound for all n and max_permutations (specs/ind/CheckLoopInd.tla)",
      "stop_exploring/explore/skip_branch/expect_explicit_explore at every placement: subset of the unrestricted result set, every iteration valid, no Pending in a frozen branch; max_branches at need-1/need/need+2, max_threads below/at need, max_permutations x checkpoint_interval grid against CheckLoop.tla. " + ENGINE),
     ("C20", "outcome/deadlock sandwich + trace validation against LoomSem's future layer (block_on loop over a Notify with one spurious return, AtomicWaker slot under its lock)",
      "Programs with one blocked future (register-then-check and check-then-register) and 1-2 wakers: returned value and number of polls must be reference outcomes, deadlock reported iff reachable, no leak report."),
